@@ -216,6 +216,10 @@ func runC28(p *core.Prog, r *core.Report) {
 		r.Fatalf("C28.R3: StickyBitCheck not found")
 	}
 	// ---------------- R4 a privileged role needs fresh evidence
+	// ---- R5 'headers incomplete' only where the handler looks again
+	r5 := r.Rule("C28.R5", "the eACL header source reports 'object headers incomplete' (which makes an object-filter record unmatched and the request follow the basic ACL) only for GET/HEAD requests and for responses, whose handlers evaluate the table again with the real header; for PUT, DELETE, RANGE and SEARCH requests missing headers are an error, never 'incomplete'", 2)
+	incompleteHeadersOnlyWhereRechecked(p, r, r5)
+	r.Explain += " (R5) in the eACL header source every write of the 'headers incomplete' flag lies outside the cases of the request kinds that are served on an unmatched table without a second look (PUT, DELETE, RANGE, RANGEHASH, SEARCH): only GET/HEAD requests and responses, whose handlers run the table again on the header actually read, may leave object filters undecided."
 	r4 := r.Rule("C28.R4", "classify returns a privileged role only on evidence obtained for this request: owner ⇐ author==container owner; inner ring ⇐ key found in the list fetched now; container ⇐ InContainerInLastTwoEpochs(this container, this key)==(true,nil) asked now (directly or through a helper whose every 'true' passes it)", 4)
 	cfn := p.Func("(pkg/services/object/acl/v2.senderClassifier).classify")
 	if cfn == nil {
@@ -504,5 +508,98 @@ func runC30(p *core.Prog, r *core.Report) {
 			_ = s
 		}
 		r5.Check(n > 0, "cmd/neofs-node#"+sink, "-", "purged on new epoch", "nothing in cmd/neofs-node purges this cache: an epoch-based verdict would outlive its epoch")
+	}
+	// ---- R8 the purge drops every verdict
+	r8 := r.Rule("C30.R8", "the functions the new-epoch handler calls drop EVERY cached verdict: each calls Purge of its LRU cache unconditionally (a positive verdict includes the epoch checks of the epoch it was computed in, so keeping positives lets a token outlive its expiration for as long as it stays in the cache)", 2)
+	for _, name := range []string{aclV2 + ".ResetTokenCheckCache", "(*internal/sessions.ObjectSessionsCache).ResetCache"} {
+		fn := p.Func(name)
+		if fn == nil {
+			r.Fatalf("C30.R8: %s not found", name)
+			continue
+		}
+		okp := false
+		for _, s := range core.CallSites([]*ssa.Function{fn}, func(s core.Site) bool { return strings.HasSuffix(s.Name, ").Purge") && strings.Contains(s.Name, "golang-lru") }) {
+			in := s.Call.(ssa.Instruction)
+			b := in.Block()
+			all := true
+			for _, rb := range fn.Blocks {
+				if _, isRet := rb.Instrs[len(rb.Instrs)-1].(*ssa.Return); isRet && !b.Dominates(rb) {
+					all = false
+				}
+			}
+			if s.Fn == fn && all {
+				okp = true
+			}
+		}
+		r8.Check(okp, name+"#purges-all", p.Pos(fn.Pos()), "the whole cache is purged on every path", name+" no longer purges its whole cache unconditionally: verdicts computed under an earlier epoch's 'not expired / already valid' checks survive the epoch change")
+	}
+	r.Explain += " (R8) the two functions the new-epoch handler calls purge their whole LRU cache on every path; selective cleaning (e.g. dropping only failures) would keep positive verdicts whose epoch checks were made in an earlier epoch."
+}
+
+// incompleteHeadersOnlyWhereRechecked: in (*cfg).readObjectHeaders, no store to headerSource.incompleteObjectHeaders is
+// reachable only through the type-switch case of a request type other than GetRequest / HeadRequest.
+func incompleteHeadersOnlyWhereRechecked(p *core.Prog, r *core.Report, h *core.RuleH) {
+	fn := p.Func("(*pkg/services/object/acl/eacl/v2.cfg).readObjectHeaders")
+	if fn == nil {
+		r.Fatalf("C28.R5: readObjectHeaders not found")
+		return
+	}
+	// true edges of the type tests for request kinds that are not looked at again
+	deny := map[[2]*ssa.BasicBlock]bool{}
+	names := map[[2]*ssa.BasicBlock]string{}
+	for _, b := range fn.Blocks {
+		for _, in := range b.Instrs {
+			ta, ok := in.(*ssa.TypeAssert)
+			if !ok || !ta.CommaOk || ta.Referrers() == nil {
+				continue
+			}
+			t := ta.AssertedType.String()
+			if !strings.Contains(t, "proto/object.") || !strings.HasSuffix(t, "Request") || strings.HasSuffix(t, ".GetRequest") || strings.HasSuffix(t, ".HeadRequest") {
+				continue
+			}
+			for _, ref := range *ta.Referrers() {
+				ex, isEx := ref.(*ssa.Extract)
+				if !isEx || ex.Index != 1 || ex.Referrers() == nil {
+					continue
+				}
+				for _, u := range *ex.Referrers() {
+					if iff, isIf := u.(*ssa.If); isIf {
+						e := [2]*ssa.BasicBlock{iff.Block(), iff.Block().Succs[0]}
+						deny[e] = true
+						names[e] = t[strings.LastIndex(t, ".")+1:]
+					}
+				}
+			}
+		}
+	}
+	if len(deny) == 0 {
+		r.Fatalf("C28.R5: no request-kind cases found in readObjectHeaders")
+		return
+	}
+	n := 0
+	for _, b := range fn.Blocks {
+		for _, in := range b.Instrs {
+			st, ok := in.(*ssa.Store)
+			if !ok {
+				continue
+			}
+			fa, ok := st.Addr.(*ssa.FieldAddr)
+			if !ok || !strings.HasSuffix(core.FieldAddrName(fa), ".incompleteObjectHeaders") {
+				continue
+			}
+			if c, isC := st.Val.(*ssa.Const); isC {
+				if bv, isB := constBool(c); isB && !bv {
+					continue // 'complete'
+				}
+			}
+			n++
+			entry := fn.Blocks[0]
+			free := b == entry || reachesAvoiding(entry, b, nil, deny)
+			h.Check(free, core.FuncName(fn)+"#incomplete@"+fmt.Sprint(n), p.InstrPos(in), "reachable for a GET/HEAD request or a response",
+				"'object headers incomplete' is reported inside the case of a request kind whose handler serves an unmatched table without evaluating it again: a DENY record with an object filter is skipped whenever the headers cannot be obtained and the request is served")
+		}
+	}
+	if n == 0 {
+		h.Check(true, core.FuncName(fn)+"#incomplete", p.Pos(fn.Pos()), "headers are never reported incomplete", "")
 	}
 }
